@@ -111,6 +111,7 @@ class Origins:
         self.body = body or fn.body
         self.cfg = CFG(self.body)
         self.path = path
+        self.track_mut = True
         self.argc = self.body["argc"]
         self.memo = {}
         self.active = set()
@@ -240,11 +241,59 @@ class Origins:
                 if proj[:len(qp)] == qp:
                     alts.append(self._apply(self._call(t, p), proj[len(qp):]))
                     continue
+            if t["k"] == "call" and self.track_mut:
+                # a call that receives `&mut local…` may modify it: ('mut', value before, call)
+                hit = None
+                pend = len(blocks[self._blk(p)]["s"])
+                for a in t["args"]:
+                    pl = a.get("move") or a.get("copy")
+                    if pl is None or pl["p"]:
+                        continue
+                    tgt = self._mut_ref_target(pl["l"], p, pend, 0)
+                    if tgt is not None and tgt[0] == local:
+                        tp = tgt[1]
+                        n = min(len(tp), len(proj))
+                        if tp[:n] == proj[:n]:
+                            hit = tp
+                if hit is not None:
+                    before = self._local(local, hit if len(hit) <= len(proj) else proj, p, pend)
+                    node = ("mut", before, self._call(t, p), len(hit) > len(proj) and hit[len(proj):] or ())
+                    alts.append(self._apply(node, proj[len(hit):]) if len(hit) <= len(proj) else node)
+                    continue
             alts.append(self._local(local, proj, p, len(blocks[self._blk(p)]["s"])))
         if not alts:
             return ("unknown", "unreachable")
         alts = [a for a in alts if not (a[0] == "loop" and a[1] == local)] or alts
         return mk_phi(alts)
+
+    def _mut_ref_target(self, l, tok, i, depth):
+        """If local l (at position tok,i) holds `&mut place`, return (base local, proj) of place."""
+        if depth > 6:
+            return None
+        ty = self.body["locals"][l]["ty"]
+        if not (isinstance(ty, dict) and "ref" in ty and ty.get("mut")):
+            return None
+        blocks = self.body["blocks"]
+        stmts = blocks[self._blk(tok)]["s"]
+        for j in range(min(i, len(stmts)) - 1, -1, -1):
+            s = stmts[j]
+            if s["k"] == "assign" and s["place"]["l"] == l and not s["place"]["p"]:
+                rv = s["rv"]
+                if rv["k"] == "ref" and rv.get("mut"):
+                    pl = rv["place"]
+                    pp = tuple(_pe(e) for e in pl["p"])
+                    if pp and pp[0] == "*":
+                        inner = self._mut_ref_target(pl["l"], tok, j, depth + 1)
+                        if inner is None:
+                            return None
+                        return (inner[0], inner[1] + pp[1:])
+                    return (pl["l"], pp)
+                if rv["k"] == "use":
+                    pl = rv["a"].get("move") or rv["a"].get("copy")
+                    if pl is not None and not pl["p"]:
+                        return self._mut_ref_target(pl["l"], tok, j, depth + 1)
+                return None
+        return None
 
     def _entry(self, local, proj):
         if 1 <= local <= self.argc:
